@@ -96,3 +96,16 @@ PROPS['C10'] = dict(
     trusted_base=TRUSTED_COMMON + SL_BASE,
     assumptions=["the property is false of the code for from-scratch states on issuance-on-demand registries and while position 0 is revoked (F12): C10_scratch_* _partial/_refuted theorems; recorded in known_findings.json (F12a, F12b) and reported as KNOWN-FINDING when reproduced"],
 )
+
+PROPS['C19'] = dict(
+    lean_targets=['AnonModel.Props.C19'],
+    required_theorems=['C19_content_layout', 'C19_read_back', 'C19_name_is_hash', 'C19_final_atomic', 'C19_temp_is_prefix',
+                       'C19_no_temp_after_error', 'C19_success_publishes', 'C19_temp_ne_final'],
+    families=[dict(name='c19')],
+    default_dir='exact',
+    spec_is_model=['c19'],
+    fam_theorem={'c19': 'C19_content_layout / C19_read_back / C19_name_is_hash (layout, naming), C19_final_atomic / C19_no_temp_after_error (writer machine)'},
+    rule="registries of size 1,2,3,5,8,33 (thorough: up to 64) written by the real TailsFileWriter while a wrapper records the generated tails: file name, returned hash, size and SHA-256 compared with the model's own SHA-256/base58/layout; every tail (sampled for large files) and three out-of-range indices read back through TailsFileReader::access_tail; base58 of 1500 random / zero-prefixed byte strings against the bs58 crate; fault injection below libc (LD_PRELOAD shim): the writer runs in a child process and the N-th open/write/lseek/rename that concerns the *.tmp file fails with EIO or the process is SIGKILLed there, for every N reached in a clean run and two file sizes (one with several write calls); afterwards directory listing and file bytes are compared with the model's reachable state at the corresponding step. Independent oracles: bytes = tag ++ tails in generation order; name = tails_hash = base58(sha256(bytes)); final name complete or absent; no *.tmp after an error return",
+    trusted_base=TRUSTED_COMMON + ["atomicity of rename(2) and the directory semantics of the OS are assumptions of the writer model", "BufWriter buffering is abstracted to 'the temporary file holds a prefix of the bytes handed over so far'"],
+    not_exhibited_by_model=["durability across power loss (the writer never calls fsync)", "a failing remove_file inside the TempFile guard (only logged by the code)"],
+)
